@@ -532,7 +532,21 @@ func inFatalZone(x []byte, maxLength int) bool {
 // copy the payload) plus generous constant slack for runtime noise.
 func allocBound(n int) uint64 { return 1<<20 + 64*uint64(n) }
 
-func allocated(f func()) uint64 {
+// measureAll: measure every call (rapid and deterministic tests). The native fuzz target
+// turns it off and measures only calls whose input declares more elements than it has bytes
+// (runtime.ReadMemStats stops the world; unconditional use would throttle the fuzzer).
+var measureAll = true
+
+func suspicious(x []byte) bool {
+	c, ok := refCount(x)
+	return ok && c > int64(len(x))
+}
+
+func allocated(measure bool, f func()) uint64 {
+	if !measure {
+		f()
+		return 0
+	}
 	var a, b runtime.MemStats
 	runtime.ReadMemStats(&a)
 	f()
@@ -554,7 +568,7 @@ func checkIndex(t fataler, entry string, f func([]byte, int) ([]int, []byte, err
 	var path []int
 	var rest []byte
 	var err error
-	n := allocated(func() {
+	n := allocated(measureAll || suspicious(x), func() {
 		nocrash(t, fmt.Sprintf("%s.DecodeIndex(%x, %d)", entry, x, maxLength), func() { path, rest, err = f(in, maxLength) })
 	})
 	if n > allocBound(len(x)) {
@@ -638,7 +652,8 @@ func checkHostile(t fataler, m model, s *sr.Serde, tr *trace, hdr *sr.ConfluentH
 	if found {
 		dst = slots[m.regs[ri].Slot].ptr()
 	}
-	n := allocated(func() {
+	measure := measureAll || (wok && suspicious(wrest))
+	n := allocated(measure, func() {
 		nocrash(t, fmt.Sprintf("Serde.Decode(%x)", in), func() { err = s.Decode(in, dst) })
 	})
 	if n > allocBound(len(in)) {
@@ -659,7 +674,7 @@ func checkHostile(t fataler, m model, s *sr.Serde, tr *trace, hdr *sr.ConfluentH
 	}
 	tr.reset()
 	var nv any
-	n = allocated(func() {
+	n = allocated(measure, func() {
 		nocrash(t, fmt.Sprintf("Serde.DecodeNew(%x)", in), func() { nv, err = s.DecodeNew(in) })
 	})
 	if n > allocBound(len(in)) {
@@ -973,6 +988,7 @@ func FuzzDecode(f *testing.F) {
 	}
 	hdr := new(sr.ConfluentHeader)
 	s, tr := build(fuzzModel, false, false)
+	measureAll = false
 	f.Fuzz(func(t *testing.T, in []byte, ml int64) {
 		hok, _ := checkHostile(t, fuzzModel, s, tr, hdr, in, int(ml), nil)
 		ev.Case(fmt.Sprintf("f:%x:%d", in, ml), hok)
